@@ -229,7 +229,10 @@ def run_agreement(ctx, seed, deep, values=True, snapshots=True, prop="C03"):
                             try:
                                 r = getattr(a, g)
                             except Exception as e:
-                                ctx.fail(f"{site0}:{g}", f"raises {type(e).__name__}: {e}"[:200], {"points": pts})
+                                if values:      # an exception is a disagreement of values (C03), not a modified operand (C16)
+                                    ctx.fail(f"{site0}:{g}", f"raises {type(e).__name__}: {e}"[:200], {"points": pts})
+                                if snapshots and snapshot(a) != before:
+                                    ctx.fail(f"{site0}:{g}:operand_modified", f"reading .{g} raised and changed the operand", {"points": pts})
                                 continue
                             if snapshots and snapshot(a) != before:
                                 ctx.fail(f"{site0}:{g}:operand_modified", f"reading .{g} changed the operand", {"points": pts})
@@ -246,7 +249,10 @@ def run_agreement(ctx, seed, deep, values=True, snapshots=True, prop="C03"):
                             try:
                                 r = f(a)
                             except Exception as e:
-                                ctx.fail(f"{site0}:{nm}", f"raises {type(e).__name__}: {e}"[:200], {"points": pts})
+                                if values:
+                                    ctx.fail(f"{site0}:{nm}", f"raises {type(e).__name__}: {e}"[:200], {"points": pts})
+                                if snapshots and snapshot(a) != before:
+                                    ctx.fail(f"{site0}:{nm}:operand_modified", f"{nm} raised and changed its operand", {"points": pts})
                                 continue
                             if snapshots and snapshot(a) != before:
                                 ctx.fail(f"{site0}:{nm}:operand_modified", f"{nm} changed its operand", {"points": pts})
@@ -265,7 +271,10 @@ def run_agreement(ctx, seed, deep, values=True, snapshots=True, prop="C03"):
                             try:
                                 r = g_arr(a, karr)
                             except Exception as e:
-                                ctx.fail(f"{site0}:{nm}", f"raises {type(e).__name__}: {e}"[:200], {"points": pts})
+                                if values:
+                                    ctx.fail(f"{site0}:{nm}", f"raises {type(e).__name__}: {e}"[:200], {"points": pts})
+                                if snapshots and (snapshot(a) != before or (karr.tobytes() if isinstance(karr, numpy.ndarray) else repr(ak.to_list(karr))) != kb):
+                                    ctx.fail(f"{site0}:{nm}:operand_modified", f"{nm} raised and changed an operand", {"points": pts})
                                 continue
                             if snapshots and (snapshot(a) != before or (karr.tobytes() if isinstance(karr, numpy.ndarray) else repr(ak.to_list(karr))) != kb):
                                 ctx.fail(f"{site0}:{nm}:operand_modified", f"{nm} changed an operand", {"points": pts})
@@ -310,7 +319,10 @@ def run_agreement(ctx, seed, deep, values=True, snapshots=True, prop="C03"):
                                 try:
                                     r = f(a, b)
                                 except Exception as e:
-                                    ctx.fail(site, f"raises {type(e).__name__}: {e}"[:200], {"a": pts, "b": ptsb})
+                                    if values:
+                                        ctx.fail(site, f"raises {type(e).__name__}: {e}"[:200], {"a": pts, "b": ptsb})
+                                    if snapshots and (snapshot(a) != sa or snapshot(b) != sb):
+                                        ctx.fail(site + ":operand_modified", f"{nm} raised and changed an operand", {"a": pts, "b": ptsb})
                                     continue
                                 if snapshots and (snapshot(a) != sa or snapshot(b) != sb):
                                     ctx.fail(site + ":operand_modified", f"{nm} changed an operand", {"a": pts, "b": ptsb})
